@@ -458,7 +458,12 @@ pub fn scenario(rng: &mut Rng, i: u64) -> (String, FsSpec, TaskSpec) {
             "enum DupE { DA, DB, DA };\n",
             "struct DupS { int m; float m; };\n",
             "void bad_member() { float4 v = float4(0, 0, 0, 0); v.not_a_member = 1; }\n",
-        ][rng.below(7) as usize];
+            "enum BadRange {\n    BR_LOW = -1,\n    BR_MID = 5,\n    BR_HIGH = 0xFFFFFFFF,\n    BR_LOWER = -7,\n};\n",
+            "enum BadRange2 { BQ_A = 0xFFFFFFFF, BQ_B = -2, BQ_C = -1, BQ_D = 0xFFFFFFFE };\n",
+            "struct DupM { int a; int b; int a; int b; };\n",
+            "void dup_params(int p, float p) {}\n",
+            "int ret_mismatch() { float4 v = float4(1, 2, 3, 4); return v; }\nint ret_mismatch2() { return; }\n",
+        ][rng.below(12) as usize];
         format!("{src}{tail}")
     } else {
         src
